@@ -411,50 +411,164 @@ func c06Commands(c *Ctx) {
 			c.ok(key+":errors", fn.Pos(), "%d bulk/store call site(s); every failure is returned to the CLI", sites)
 		}
 	}
-	// runTar: tarErr (set by the goroutine running Tar) is tested before the index is stored
-	if fn := c.fn("cmd.runTar"); fn != nil {
-		var cell *ssa.Alloc
-		instrs(fn, func(_ *ssa.BasicBlock, _ int, ins ssa.Instruction) {
-			if a, ok := ins.(*ssa.Alloc); ok && a.Comment == "tarErr" {
-				cell = a
+	c.tarIndexNeedsTar()
+}
+
+// tarIndexNeedsTar: `tar -i` runs desync.Tar in a goroutine that writes the archive into a pipe
+// while ChunkStream chunks what comes out of it.  A failing Tar closes the pipe like a finished
+// one, so the chunker ends cleanly on a truncated archive; the only thing that keeps the command
+// from storing an index of that archive and reporting success is the error the goroutine leaves
+// behind.  Decided here: (1) the error of desync.Tar is recorded in a variable shared with the
+// command (or handed to the pipe with CloseWithError); (2) the index is stored only behind the
+// nil edge of a test of that variable; (3) every return that can be reached from the go
+// statement without passing that nil edge yields an error that is not nil there (the recorded
+// error itself, an error tested non-nil on the way, or a constructed one).
+func (c *Ctx) tarIndexNeedsTar() {
+	fn := c.fn("cmd.runTar")
+	if fn == nil {
+		return
+	}
+	var cell *ssa.Alloc
+	var goIns ssa.Instruction
+	viaPipe := false
+	tarCalls := 0
+	for _, g := range withClosures(fn) {
+		instrsAll(g, func(_ *ssa.BasicBlock, _ int, ins ssa.Instruction) {
+			if _, isGo := ins.(*ssa.Go); isGo && ins.Parent() == fn && goIns == nil {
+				goIns = ins
+			}
+			switch x := ins.(type) {
+			case *ssa.Store:
+				if hasOrigin(x.Val, func(o string) bool { return o == "call:desync.Tar#0" }) {
+					for _, l := range leaves(x.Addr) {
+						if a, ok := l.(*ssa.Alloc); ok && a.Parent() == fn {
+							cell = a
+						}
+					}
+					if fv, ok := x.Addr.(*ssa.FreeVar); ok {
+						for _, cv := range captured(fv) {
+							if a, ok := cv.(*ssa.Alloc); ok && a.Parent() == fn {
+								cell = a
+							}
+						}
+					}
+				}
+			case *ssa.Call:
+				if callee(x) == "desync.Tar" {
+					tarCalls++
+				}
+				if strings.HasSuffix(callee(x), "io.PipeWriter).CloseWithError") && len(x.Call.Args) > 1 && hasOrigin(x.Call.Args[1], func(o string) bool { return o == "call:desync.Tar#0" }) {
+					viaPipe = true
+				}
 			}
 		})
-		if cell == nil {
-			c.info("cmd.runTar:tarErr", fn.Pos(), "no tarErr cell (Tar's error is handled differently)")
-			return
-		}
-		fromTar := false
-		for _, s := range storesTo(cell) {
-			if hasOrigin(s.Val, func(o string) bool { return o == "call:desync.Tar#0" }) {
-				fromTar = true
-			}
-		}
-		okAll := fromTar
-		n := 0
-		for _, s := range calls(fn, named("cmd.storeCaibxFile", "(desync.IndexWriteStore).StoreIndex")) {
-			n++
-			okG, _ := guarded(fn, s.(ssa.Instruction), func(iff *ssa.If) (bool, bool) {
-				cm, truth, ok := cmpOf(iff.Cond)
-				if !ok || !(isNilConst(cm.x) || isNilConst(cm.y)) {
-					return false, false
-				}
-				subj := cm.x
-				if isNilConst(cm.x) {
-					subj = cm.y
-				}
-				u, isLoad := subj.(*ssa.UnOp)
-				if !isLoad || u.X != ssa.Value(cell) {
-					return false, false
-				}
-				nilOnTrue := (cm.op == token.EQL) == truth
-				return nilOnTrue, !nilOnTrue
-			})
-			if !okG {
-				okAll = false
-			}
-		}
-		c.verdict(okAll && n > 0, "cmd.runTar:tarErr", fn.Pos(), "Tar's error is recorded and the index is stored only when it is nil", "the index is stored (and success reported) although Tar may have failed")
 	}
+	if tarCalls == 0 {
+		c.info("cmd.runTar:tarErr", fn.Pos(), "runTar does not call desync.Tar")
+		return
+	}
+	if cell == nil {
+		if viaPipe {
+			c.ok("cmd.runTar:tarErr", fn.Pos(), "Tar's error is handed to the pipe (CloseWithError): the chunker fails with it")
+		} else {
+			c.bad("cmd.runTar:tarErr", fn.Pos(), "the error of desync.Tar is neither recorded in a variable of the command nor handed to the pipe: a failing or interrupted Tar ends the chunker's input like a finished one, and tar -i stores an index of the truncated archive and reports success")
+		}
+		return
+	}
+	isCellLoad := func(v ssa.Value) bool {
+		u, ok := v.(*ssa.UnOp)
+		return ok && u.Op == token.MUL && u.X == ssa.Value(cell)
+	}
+	acc := func(iff *ssa.If) (bool, bool) {
+		cm, truth, ok := cmpOf(iff.Cond)
+		if !ok || !(isNilConst(cm.x) || isNilConst(cm.y)) {
+			return false, false
+		}
+		subj := cm.x
+		if isNilConst(cm.x) {
+			subj = cm.y
+		}
+		u, isLoad := subj.(*ssa.UnOp)
+		if !isLoad || u.X != ssa.Value(cell) {
+			return false, false
+		}
+		nilOnTrue := (cm.op == token.EQL) == truth
+		return nilOnTrue, !nilOnTrue
+	}
+	okAll := true
+	why := "the index is stored (and success reported) although Tar may have failed"
+	n := 0
+	for _, s := range calls(fn, named("cmd.storeCaibxFile", "(desync.IndexWriteStore).StoreIndex")) {
+		n++
+		if okG, _ := guarded(fn, s.(ssa.Instruction), acc); !okG {
+			okAll = false
+		}
+	}
+	// (3) returns reachable from the go statement without passing the nil edge
+	if goIns != nil && okAll {
+		edges := acceptingEdgesDeep(fn, acc, 0)
+		reach := reachableFrom(goIns.Block(), edges)
+		for _, b := range fn.Blocks {
+			if !reach[b] || len(b.Instrs) == 0 {
+				continue
+			}
+			ret, ok := b.Instrs[len(b.Instrs)-1].(*ssa.Return)
+			if !ok || len(ret.Results) == 0 {
+				continue
+			}
+			v := ret.Results[len(ret.Results)-1]
+			// functions with defer spill their results: "*res = x; rundefers; t = *res; return t"
+			if u, isLoad := v.(*ssa.UnOp); isLoad && u.Op == token.MUL {
+				for _, ins := range b.Instrs {
+					if st, isSt := ins.(*ssa.Store); isSt && st.Addr == u.X {
+						v = st.Val
+					}
+				}
+			}
+			if isCellLoad(v) || nonNilAt(v, b) || constructedNonNil(v, b, 0) || nonNilAtSameCell(v, b) {
+				continue
+			}
+			okAll = false
+			why = fmt.Sprintf("the return at %s can be reached with Tar's error set and yields a value that is not known to be non-nil there (origins %v): a failed Tar ends in success or in a nil error", c.pos(ret.Pos()), origins(v))
+		}
+	}
+	c.verdict(okAll && n > 0, "cmd.runTar:tarErr", fn.Pos(), "Tar's error is recorded, the index is stored only when it is nil, and every other way out yields a non-nil error", why)
+}
+
+// nonNilAtSameCell: v is a load of a variable that lives in memory, and block b lies behind the
+// non-nil edge of a test of another load of the same variable (go/ssa has no CSE: "if err != nil
+// { return err }" on a captured err is two loads).
+func nonNilAtSameCell(v ssa.Value, b *ssa.BasicBlock) bool {
+	u, ok := v.(*ssa.UnOp)
+	if !ok || u.Op != token.MUL {
+		return false
+	}
+	for _, tb := range b.Parent().Blocks {
+		iff := lastIf(tb)
+		if iff == nil {
+			continue
+		}
+		cm, truth, ok := cmpOf(iff.Cond)
+		if !ok || (cm.op != token.EQL && cm.op != token.NEQ) || !(isNilConst(cm.x) || isNilConst(cm.y)) {
+			continue
+		}
+		subj := cm.x
+		if isNilConst(cm.x) {
+			subj = cm.y
+		}
+		su, isLoad := subj.(*ssa.UnOp)
+		if !isLoad || su.Op != token.MUL || su.X != u.X {
+			continue
+		}
+		nn := tb.Succs[1]
+		if (cm.op == token.NEQ) == truth {
+			nn = tb.Succs[0]
+		}
+		if len(nn.Preds) == 1 && (nn == b || nn.Dominates(b)) {
+			return true
+		}
+	}
+	return false
 }
 
 func c06IndexRow(c *Ctx) {
